@@ -5,7 +5,8 @@ from .engine import (I, R, B, A1, A2, CPLX, cmul, fresh, OutOfFragment, Contract
                      Gather, ArrCmp, ListObj, Obj, Unbound, PyConst, SymSeq, State, VC, SpecEval, elem_sort, arr_sort,
                      is_z3, to_z3, as_bool, as_num, compare, scalar_binop, array_binop)
 
-TYPE_ARR = {'bool1': (1, 'bool'), 'int1': (1, 'int'), 'int2': (2, 'int'), 'real1': (1, 'real'), 'cplx1': (1, 'cplx'), 'cplx2': (2, 'cplx'), 'int3': (3, 'int')}
+TYPE_ARR = {'bool1': (1, 'bool'), 'int1': (1, 'int'), 'int2': (2, 'int'), 'real1': (1, 'real'), 'cplx1': (1, 'cplx'), 'cplx2': (2, 'cplx'), 'int3': (3, 'int'),
+            'char1': (1, 'char'), 'str': (1, 'strc')}      # a list of one-character strings / a str: arrays of code points
 
 
 class Tag(object):
@@ -896,17 +897,34 @@ class FuncVerifier(object):
                 and isinstance(n.target, ast.Name) and isinstance(n.iter.args[2], ast.UnaryOp) and isinstance(n.iter.args[2].op, ast.USub) \
                 and isinstance(n.iter.args[2].operand, ast.Constant) and n.iter.args[2].operand.value == 1:
             return self.st_For_down(n, st, k)
-        if not (isinstance(n.iter, ast.Call) and isinstance(n.iter.func, ast.Name) and n.iter.func.id == 'range'
-                and 1 <= len(n.iter.args) <= 2 and isinstance(n.target, ast.Name)):
-            raise OutOfFragment('for loop that is not `for <name> in range(a[, b])` or `range(a, b, -1)`', n)
+        is_range = (isinstance(n.iter, ast.Call) and isinstance(n.iter.func, ast.Name) and n.iter.func.id == 'range'
+                    and 1 <= len(n.iter.args) <= 2 and isinstance(n.target, ast.Name))
+        enum_src = None
+        if not is_range and isinstance(n.target, ast.Tuple) and len(n.target.elts) == 2 and all(isinstance(e, ast.Name) for e in n.target.elts):
+            # `for i, x in enumerate(a)` (or over a local that holds enumerate(a)): i runs over range(len(a)), x = a[i] read at the loop head
+            itv = self.pev(n.iter, st)
+            if isinstance(itv, Tag) and itv.kind == 'enumerate':
+                enum_src = itv.data[0]
+        if not is_range and enum_src is None:
+            raise OutOfFragment('for loop that is not `for <name> in range(a[, b])`, `range(a, b, -1)` or `for i, x in enumerate(<1-D array>)`', n)
         if k not in self.c.loops:
             raise ContractError('%s: no invariant for loop %d (line %d)' % (self.c.key, k, n.lineno))
         ls = self.c.loops[k]
-        var = n.target.id
+        var = n.target.id if is_range else n.target.elts[0].id
         if ls.var is not None and ls.var != var:
             raise OutOfFragment('loop %d iterates over %r, contract expects %r' % (k, var, ls.var), n)
-        args = [as_num(self.pev(a, st)) for a in n.iter.args]
-        lo, hi = (z3.IntVal(0), args[0]) if len(args) == 1 else (args[0], args[1])
+        if is_range:
+            args = [as_num(self.pev(a, st)) for a in n.iter.args]
+            lo, hi = (z3.IntVal(0), args[0]) if len(args) == 1 else (args[0], args[1])
+        else:
+            lo, hi = z3.IntVal(0), self.deref(enum_src, st).shape[0]
+        evar = None if is_range else n.target.elts[1].id
+
+        def bind_elem(s_, idx):
+            if evar is not None:
+                av_ = self.deref(enum_src, s_)
+                el = z3.Select(av_.term, idx)
+                s_.env[evar] = Tag('char', el) if av_.elem == 'char' else el
         site = 'loop%d' % k
         st.snaps = dict(st.snaps)
         st.snaps[site + '.pre'] = (dict(st.env), dict(st.heap))
@@ -914,6 +932,7 @@ class FuncVerifier(object):
         # --- init
         s_init = st.copy()
         s_init.env[var] = lo
+        bind_elem(s_init, lo)
         self.apply_hints(s_init, ls.hints_exit if False else [], site)
         sp = self.spec(s_init)
         for ci, clause in enumerate(ls.invariant):
@@ -932,6 +951,7 @@ class FuncVerifier(object):
         # --- body
         s_b = s_h.copy()
         s_b.pc.append(iv < hi)
+        bind_elem(s_b, iv)
         s_b.snaps[site + '.head'] = (dict(s_b.env), dict(s_b.heap))
         self.apply_hints(s_b, ls.hints_head, site + '.head')
         for (s1, ctl) in self.exec_block(n.body, s_b):
@@ -1212,7 +1232,7 @@ class FuncVerifier(object):
                 return Tag('func', n.id, r[1])
             if r is not None and r[0] == 'class':
                 return Tag('class', n.id, r[1])
-        if n.id in ('isinstance', 'type', 'super', 'len', 'int', 'range', 'reversed'):
+        if n.id in ('isinstance', 'type', 'super', 'len', 'int', 'range', 'reversed', 'enumerate', 'list'):
             return Tag('builtin', n.id)
         raise OutOfFragment('unknown name %r' % n.id, n)
 
@@ -1297,6 +1317,23 @@ class FuncVerifier(object):
                 if not isinstance(op, (ast.Eq, ast.NotEq)) or len(left) != len(right):
                     raise OutOfFragment('tuple comparison', n)
                 e = z3.And(*[to_z3(a) == to_z3(b) for a, b in zip(left, right)])
+                out.append(e if isinstance(op, ast.Eq) else z3.Not(e))
+            elif (isinstance(left, Tag) and left.kind == 'char') or (isinstance(right, Tag) and right.kind == 'char') \
+                    or isinstance(left, str) or isinstance(right, str):
+                # characters and strings: equal only to a one-character string with the same code point; never equal to a number
+                if not isinstance(op, (ast.Eq, ast.NotEq)):
+                    raise OutOfFragment('ordering of characters', n)
+                def code(v_):
+                    if isinstance(v_, Tag) and v_.kind == 'char':
+                        return v_.data[0]
+                    if isinstance(v_, str) and len(v_) == 1:
+                        return z3.IntVal(ord(v_))
+                    return None
+                if isinstance(left, str) and isinstance(right, str):
+                    e = z3.BoolVal(left == right)
+                else:
+                    cl, cr = code(left), code(right)
+                    e = (cl == cr) if (cl is not None and cr is not None) else z3.BoolVal(False)
                 out.append(e if isinstance(op, ast.Eq) else z3.Not(e))
             else:
                 out.append(compare(op, left, right))
@@ -1532,6 +1569,8 @@ class FuncVerifier(object):
             s0 = sl.elts[0] if isinstance(sl, ast.Tuple) else sl
             lo = as_num(self.pev(s0.lower, st)) if s0.lower is not None else z3.IntVal(0)
             hi = as_num(self.pev(s0.upper, st)) if s0.upper is not None else av.shape[0]
+            if s0.upper is not None and any(isinstance(x, ast.UnaryOp) and isinstance(x.op, ast.USub) for x in ast.walk(s0.upper)):
+                hi = z3.If(hi < 0, hi + av.shape[0], hi)      # a[:-e]: Python counts a negative stop from the end
             self.oblige(st, self.site(n, 'bounds'), z3.And(0 <= lo, lo <= hi, hi <= av.shape[0]), n)
             res = fresh('slice', av.term.sort())
             k_ = fresh('k', I)
@@ -1778,6 +1817,11 @@ class FuncVerifier(object):
         if isinstance(f, Tag) and f.kind == 'func':
             fname, ffile = f[1], f[2]
             callee = self.lib.by_name.get((ffile, fname))
+            if callee is None and not kwargs and any(k.startswith('%s::%s#' % (ffile, fname)) for k in self.lib.contracts):
+                # a function with contract variants: the variant whose parameter types accept the actual arguments
+                sel = self.match_variant('%s::%s' % (ffile, fname), args, st)
+                if sel is not None:
+                    return self.call_contract(fname, args, n, st, ffile, callee=sel)
             if callee is not None:
                 if kwargs:
                     raise OutOfFragment('keyword arguments in a call to a contracted function', n)
@@ -1851,6 +1895,9 @@ class FuncVerifier(object):
         """the contract (variant) of a method whose declared parameter classes accept the actual arguments; the most specific
         receiver class wins.  None if no variant fits (the call is then inlined)."""
         base = '%s::%s.%s' % (mfile, mcls, meth)
+        return self.match_variant(base, args, st)
+
+    def match_variant(self, base, args, st):
         cands = [c for k, c in self.lib.contracts.items() if k == base or k.startswith(base + '#')]
         best, best_rank = None, -1
         for c in cands:
@@ -1883,8 +1930,12 @@ class FuncVerifier(object):
                         ok = False
                         break
                 elif isinstance(ty, str) and ty in TYPE_ARR:
-                    if not isinstance(a, (Ref, View, AV)):
+                    if not isinstance(a, (Ref, View, AV)) or (isinstance(a, Ref) and not isinstance(st.heap.get(a.loc), AV)):
                         ok = False
+                        break
+                    ek = self.deref(a, st).elem
+                    if (ek in ('char', 'strc') or TYPE_ARR[ty][1] in ('char', 'strc')) and ek != TYPE_ARR[ty][1]:
+                        ok = False            # lists of characters / strings / numeric arrays are told apart
                         break
                 else:
                     if isinstance(a, (Ref, View, AV)) or a is None:
@@ -2011,6 +2062,17 @@ class FuncVerifier(object):
         raise OutOfFragment('control flow %r leaving inlined %s' % (ctl, fdef.name), node)
 
     def call_builtin(self, name, n, st):
+        if name == 'enumerate' and len(n.args) == 1 and not n.keywords:
+            v = self.pev(n.args[0], st)
+            if isinstance(v, (Ref, View)) and not (isinstance(v, Ref) and not isinstance(st.heap[v.loc], AV)) and self.deref(v, st).ndim == 1:
+                return Tag('enumerate', v)
+            raise OutOfFragment('enumerate of something that is not a 1-D array', n)
+        if name == 'list' and len(n.args) == 1 and not n.keywords:
+            v = self.pev(n.args[0], st)
+            if isinstance(v, Ref) and isinstance(st.heap[v.loc], AV) and st.heap[v.loc].elem == 'strc':
+                av = st.heap[v.loc]
+                return st.alloc(AV(av.term, av.shape, 'char'))      # list(<str>): the list of its characters
+            raise OutOfFragment('list() of this value', n)
         if name == 'max' and len(n.args) == 1 and not n.keywords:
             v = self.pev(n.args[0], st)
             if isinstance(v, (Ref, View)) and not (isinstance(v, Ref) and not isinstance(st.heap[v.loc], AV)):
@@ -2042,6 +2104,8 @@ class FuncVerifier(object):
                 return z3.BoolVal(any(self.is_subclass(cls, t) for t in names))
             if isinstance(v, Ref) and isinstance(st.heap[v.loc], ListObj):
                 return z3.BoolVal('list' in names)
+            if isinstance(v, Ref) and isinstance(st.heap[v.loc], AV) and st.heap[v.loc].elem in ('char', 'strc'):
+                return z3.BoolVal(('list' if st.heap[v.loc].elem == 'char' else 'str') in names)
             if isinstance(v, (Ref, View, AV)):
                 return z3.BoolVal(any(t in ('numpy.ndarray', 'np.ndarray') for t in names))
             if isinstance(v, tuple):
